@@ -196,10 +196,14 @@ class CFG:
                 cur = self.stmt(s["init"], cur, brk, cont)
             head = self.new("join", loc=s["l"])
             self.link(cur, head.id)
+            hp = [(head.id, None)]
+            if s.get("var"):            # condition declaration, evaluated before every iteration
+                n = self.seq_node("stmt", {"k": "decl", "vars": [s["var"]], "l": s["l"]}, hp, s["l"])
+                hp = [(n.id, None)]
             if s.get("c") is not None:
-                t, f = self.cond(s["c"], [(head.id, None)])
+                t, f = self.cond(s["c"], hp)
             else:
-                t, f = [(head.id, None)], []
+                t, f = hp, []
             b, c = [], []
             body_end = self.stmt(s["body"], t, b, c)
             inc = body_end + c
